@@ -383,6 +383,12 @@ def main(argv):
             a, o = sc_args(mc=3, run=run)
             lines = [b"abc" + b"x" * (run + d) + b"def" for d in (-1, 0, 1)] + [b"abc" + b" " * (run + 2) + b"defghi"] + [b"ab" + "é".encode() * (run + dd) + b"cd" for dd in (-1, 0)]
             sc_cases.append((a, o, join(lines), "character-run-threshold"))
+        # safety boundary: an otherwise acceptable line with exactly one C0 control / DEL / ill-formed sequence in it
+        a, o = sc_args(mc=3, mci="1.0")
+        bad_bits = [bytes([x]) for x in range(0, 32) if x != 10] + [b"\x7f", b"\xc3", b"\xa9", b"\xed\xa0\x80", b"\xc0\xaf", b"\xf4\x90\x80\x80", b"\xe2\x82", b"\xf0\x9f\x98"]
+        sc_cases.append((a, o, join([b"hello " + x + b" world" for x in bad_bits] + [b"hello" + x + b"world" for x in bad_bits] + [x + b"hello world" for x in bad_bits]), "safety-boundary"))
+        a, o = sc_args(mc=3, mci="1.0", delim=b",")
+        sc_cases.append((a, o, join([b"hello" + x + b"world,abc" for x in bad_bits]), "safety-boundary"))
         words = ["hello", "world", "the", "quick", "brown", "fox", "jumps", "over", "lazy", "dog", "żółw", "naïve", "Привет", "мир", "123", "4.5", "...", "!?", "€", "😀"]
         for r in range(reps):
             mc = rng.choice([1, 3, 10, 30])
